@@ -341,8 +341,11 @@ def family(tier, seed, only_curves=None):
             entry(c, "assert_non_zero", S_assert_non_zero, [a], alt=[[1]]),
             entry(c, "pi", S_pi, [a], alt=[[0], [1]]),
             entry(c, "incomplete_add", S_incomplete_add, [a, b], alt=[[1, 2], [b, a]]),
-            entry(c, "assert_different_x", S_assert_different_x, [a, b], alt=[[1, 2]]),
         ]
+        if c == "k256":
+            # BLS12-381 (base^5, base^6 exceed the native modulus): the query did not finish in 600 s even with
+            # the quotient hints; listed in run.outside
+            E.append(entry(c, "assert_different_x", S_assert_different_x, [a, b], alt=[[1, 2]]))
     return E
 
 
@@ -360,6 +363,7 @@ def check(run):
     run.outside += [
         "fecc: that the identities  s*qy - py = L(qx - px),  x1 + x2 + x3 = L^2,  3 px^2 = 2 py L,  y^2 = x^3 + b  ARE the affine chord/tangent law of the curve group (and that the chip's case split on identity flags / x1 = x2 covers the group law, incl. the absence of points of order 2 and 3) is textbook mathematics outside the check",
         "fecc: scalar multiplication (mul_by_constant, mul_by_u128, msm, windowed_msm, GLV split, k_out_of_n / multi_select dynamic lookups), hash-to-curve and subgroup checks (assert_in_bls12_381_subgroup) are not decided; of the private helpers they are built from, incomplete_add and incomplete_assert_different_x are decided in isolation (hook H11)",
+        "fecc: incomplete_assert_different_x for BLS12-381 G1 (limb weights base^5, base^6 exceed the native modulus; the soundness query did not finish in 600 s): decided for secp256k1 only",
         "fecc: completeness beyond the concrete honest runs",
     ]
     run.bounds.append(f"fecc tier={t}: {len(ents)} (curve, operation) shapes of the foreign ECC chip; curves {sorted(set(e_['params']['curve'] for e_ in ents))} emulated over the BLS12-381 scalar field; k=11")
